@@ -20,6 +20,8 @@ pub enum Entry {
     SingleShotOpen,
     Export,
     DeriveKeypair,
+    /// contexts that have used up their sequence numbers (hook): every input length through every form
+    Exhausted,
 }
 
 #[derive(Clone, Debug, Serialize, Deserialize)]
@@ -86,7 +88,10 @@ impl Part for C13 {
         let mut v = vec![];
         for suite in seal_suites() {
             for mode in MODES {
-                for entry in [Entry::KeyFromBytes, Entry::TagFromBytes, Entry::SetupInfo, Entry::SetupPsk, Entry::Open, Entry::OpenInPlace, Entry::SingleShotOpen, Entry::Export, Entry::DeriveKeypair] {
+                for entry in [Entry::KeyFromBytes, Entry::TagFromBytes, Entry::SetupInfo, Entry::SetupPsk, Entry::Open, Entry::OpenInPlace, Entry::SingleShotOpen, Entry::Export, Entry::DeriveKeypair, Entry::Exhausted] {
+                    if entry == Entry::Exhausted && !(crate::suites::HOOKS && mode == Mode::Base && suite.kdf == suite.kem.kdf()) {
+                        continue;
+                    }
                     let kem_only = matches!(entry, Entry::KeyFromBytes | Entry::DeriveKeypair);
                     if kem_only && !(suite.kdf == suite.kem.kdf() && suite.aead == crate::refmodel::Aead::Aes128Gcm && mode == Mode::Base) {
                         continue;
@@ -421,6 +426,49 @@ impl Part for C13 {
                         }
                     }
                 }
+            }
+            Entry::Exhausted => {
+                let (enc, refctx) = match r1_setup_s(c.suite, &m, &k.pk_r, &info, &k.ikm_e) {
+                    Some(x) => x,
+                    None => {
+                        out.fail_machinery("R1 setup failed");
+                        return out;
+                    }
+                };
+                let (mut s, mut r) = match (ops.setup_sender(&m, &k.pk_r, &info, &mut ScriptRng::new(&k.ikm_e)).need("setup_sender"), ops.setup_receiver(&m, &k.sk_r, &enc, &info).need("setup_receiver")) {
+                    (Ok(s), Ok(r)) => (s.1, r),
+                    (Err(e), _) | (_, Err(e)) => {
+                        out.fail(e);
+                        return out;
+                    }
+                };
+                // use the last sequence number on both sides, then throw everything at the exhausted contexts
+                s.set_seq(u64::MAX);
+                r.set_seq(u64::MAX);
+                let last = refctx.seal_at(u64::MAX as u128, b"", b"last");
+                no_panic(&mut out, "seal at the last sequence number", &s.seal(b"last", b""));
+                no_panic(&mut out, "open at the last sequence number", &r.open(&last, b""));
+                for l in dense(if t { 300 } else { 80 }) {
+                    let data = bytes(Fill::Mix, l, 8, cfg.seed);
+                    for (what, e) in [
+                        (format!("exhausted receiver: open({} bytes)", l), no_panic(&mut out, "open on an exhausted receiver", &r.open(&data, b"aad"))),
+                        (format!("exhausted receiver: open_in_place_detached({} bytes)", l), {
+                            let mut b = data.clone();
+                            no_panic(&mut out, "open_in_place_detached on an exhausted receiver", &r.open_ip(&mut b, b"aad", &[0u8; 16][..nt]))
+                        }),
+                        (format!("exhausted sender: seal({} bytes)", l), no_panic(&mut out, "seal on an exhausted sender", &s.seal(&data, b"aad"))),
+                        (format!("exhausted sender: seal_in_place_detached({} bytes)", l), {
+                            let mut b = data.clone();
+                            no_panic(&mut out, "seal_in_place_detached on an exhausted sender", &s.seal_ip(&mut b, b"aad"))
+                        }),
+                    ] {
+                        if e != Some(HpkeError::MessageLimitReached) {
+                            out.fail(format!("{}: {:?} want MessageLimitReached", what, e));
+                        }
+                    }
+                }
+                no_panic(&mut out, "export on an exhausted sender", &s.export(b"x", 32));
+                no_panic(&mut out, "export on an exhausted receiver", &r.export(b"x", 32));
             }
             Entry::Export => {
                 let mut rng = ScriptRng::new(&k.ikm_e);
